@@ -198,7 +198,19 @@ let run_table_op (t : table ref) (tp : tops) (text : string) : string =
   | "Q" :: mask :: _ :: i :: a :: b :: c :: p ->
     let vals = row_of [i; a; b; c] in
     let ps = select !t (eqs_of (int_of_string mask) vals) (fst (parse_pred p)) in
-    Printf.sprintf "q %d %d" (Stdlib.List.length ps) (pos_digest ps)
+    (* index selection: the GENERATED GetFitUniqueHashIndex / GetFitMultiHashIndex (Gen_Protocol trees run by FitSem) on the
+       table model's indexes (creation order; key count of a multi hash = number of its groups) *)
+    let m = int_of_string mask in
+    let fit =
+      if m = 0 then " f -1 -1" else begin
+        let q = cols_of_mask m in
+        let srt l = Stdlib.List.sort compare (Stdlib.List.map ofnat l) |> Stdlib.List.map nat in
+        let us = Stdlib.List.map (fun u -> (srt u.IM.ucols, nat 0)) tp.st.TO.tidx.IM.uhs in
+        let ms = Stdlib.List.map (fun mh -> (srt mh.IM.mcols, nat (Stdlib.List.length mh.IM.mgroups))) tp.st.TO.tidx.IM.mhs in
+        let sh = function Some (Some j) -> string_of_int (ofnat j) | Some None -> "-1" | None -> "UNINTERPRETED" in
+        " f " ^ sh (ProtoRun.gen_fit_unique us ms (srt q)) ^ " " ^ sh (ProtoRun.gen_fit_multi us ms (srt q))
+      end in
+    Printf.sprintf "q %d %d%s" (Stdlib.List.length ps) (pos_digest ps) fit
   | ["QA"] ->
     let d = ref 0 in
     for va = -1 to 4 do for vb = -1 to 6 do for vc = -1 to 8 do
